@@ -611,6 +611,7 @@ def main_script(cfg, r, pts, tier):
         c = [x for x in edge if 0 < dist(a, x) <= 1.0]
         epairs.append((a, r.choice(c) if c else pick()))
     special = npairs + epairs
+    cfg["_gen"] = {"gen:normal-target-pairs": len(npairs), "gen:domain-edge-pairs": len(epairs), "gen:domain-edge-points": len(edge)}
     pairs = pairs[:5] + special + pairs[5:]
     for a, b in pairs:
         lines.append("geo %d %s %s" % (r.below(2), st(a), st(b)))
@@ -658,10 +659,10 @@ def main_script(cfg, r, pts, tier):
         lines.append("interpo %d %s %s %s" % (r.range(1, 2), st(a), st(b), f2bits(r.choice(ts))))
     # the glue planners go through (ConstrainedSpaceInformation.h): getMotionStates, SpaceInformation::checkMotion with lastValid
     # (TangentBundleSpaceInformation post-processes it), ConstrainedValidStateSampler with several attempts_ values
-    for j, (a, b) in enumerate(pairs[:5 + len(special)]):
+    for j, (a, b) in enumerate(pairs[2:5 + len(special)]):
         lines.append("gms %d %s %s" % (j % 2, st(a), st(b)))
         lines.append("sicm %d %s %s" % (0 if j % 5 == 4 else 1, st(a), st(b)))
-    for att in (r.choice([0, 1]), r.choice([2, 3]), 100):
+    for att in (r.choice([0, 1, 2, 3]), 100):
         lines.append("vs %d u" % att)
         lines.append("vs %d n %s %s" % (att, st(pick()), f2bits(r.choice([cfg["delta"], 0.3, 3.0]))))
     fixed, core = lines[:3], lines[3:]
@@ -700,8 +701,9 @@ def classify_sample(cfg, s, evs, t):
     if cfg["space"] == "proj":
         ps = [e for e in evs if e[0] == "P"]
         if ps and ps[-1][2] == "0":
-            # F10 as coded: what comes back is exactly the last Newton iterate of the failed projection, clamped
-            return "project-failed" if clamp(fl(ps[-1][3])) == s else "other"
+            # F10 as coded: what comes back is exactly the last Newton iterate of the failed projection (clamped; also accepted
+            # bit for bit unclamped, should the sampler ever clamp before it projects: the defect is the ignored verdict)
+            return "project-failed" if (clamp(fl(ps[-1][3])) == s or fl(ps[-1][3]) == s) else "other"
         if ps:
             raw = fl(ps[-1][3])
     else:
@@ -920,9 +922,17 @@ def oracle_line(cfg, op, out):
         if kk:
             i = head.index(kk[0])
             k = int(kk[0][2:])
+            lvb = [x for x in head if x.startswith("lvbad=")]
+            lvbad = set(int(v) for v in lvb[0][6:].split(",")) if lvb and lvb[0] != "lvbad=none" else set()
             for j in range(k):
                 x = fl(head[i + 1 + j * n:i + 1 + (j + 1) * n])
                 if not satisfied(cfg, x):
+                    # F460: the vertex is bit for bit a state TangentBundleSpaceInformation::checkMotion handed back in
+                    # lastValid.first after its projection failed (remembered by the harness' delegating subclass)
+                    if space == "tb" and j in lvbad:
+                        fails.append(("cm", "tb-lastvalid-failed-projection", "%s solution path vertex %d/%d (a lastValid.first of a failed projection) has residual %.3g > tolerance %.3g"
+                                      % (t[1], j, k, math.sqrt(resid_sq(cfg["con"], x)), cfg["tol"])))
+                        continue
                     fails.append(("plan", "vertex-off-manifold", "%s solution path vertex %d/%d has residual %.3g > tolerance %.3g"
                                   % (t[1], j, k, math.sqrt(resid_sq(cfg["con"], x)), cfg["tol"])))
                     break
@@ -1459,6 +1469,19 @@ def account(ck, cfg, res):
     for d in res["stats"].get("dropped_plan_ops", []):
         ck.notes.append("planner op dropped after the %d s safety limit (not judged; budgets are evaluation counts): %s" % (HARD_TIMEOUT[ck.tier], d))
     ck.drift_events += res["stats"].get("chart:numeric-drift", 0)
+    for k, v in (cfg.get("_gen") or {}).items():
+        if v:
+            ck.count(k, v)
+    nan_starts = 0
+    for op, o in zip(script[1:], out):
+        if op.startswith("proj ") and o.startswith("ret=0") and resid_sq(cfg["con"], fl(op.split()[1:1 + cfg["n"]])) == float("inf"):
+            nan_starts += 1
+    if res.get("p1") and res["p1"][0] is not script:
+        for op, o in zip(res["p1"][0][1:], res["p1"][1]):
+            if op.startswith("proj ") and resid_sq(cfg["con"], fl(op.split()[1:1 + cfg["n"]])) == float("inf"):
+                nan_starts += 1
+    if nan_starts:
+        ck.count("gen:project-from-outside-the-domain", nan_starts)
     ck.count("cfg:space:" + cfg["space"])
     ck.count("cfg:con:" + cfg["con"])
     ck.count("cfg:delta:%g" % cfg["delta"])
@@ -1490,9 +1513,12 @@ def f15_stats(ck, cfg, res):
                 ck.count("F15:interp(t=0):result-is-not-from")
 
 
-def judge(ck, hbin, cfg, res, tier):
-    """report failures of one configuration; returns number of new reports"""
+def judge(ck, hbin, cfg, res, tier, do_spec=True, do_corr=True, counts=None):
+    """report failures of one configuration; returns number of new reports.  Spec-oracle failures (concrete failing inputs)
+    and correspondence disagreements have separate report budgets (do_spec / do_corr): a run of disagreements must not use
+    up the budget before a configuration with a failing input is reached."""
     bad = 0
+    counts = counts if counts is not None else {}
     infra = res.get("infra") or res["stats"].get("infra")
     if infra:
         ck.report({"kind": "infrastructure", "engine": "constrained", "space": cfg["space"], "con": cfg["con"], "what": infra},
@@ -1501,7 +1527,7 @@ def judge(ck, hbin, cfg, res, tier):
         ck.log(infra)
         bad += 1
     seen = set()
-    for (i, site, cls, what) in res["fails"]:
+    for (i, site, cls, what) in (res["fails"] if do_spec else []):
         key = (site, cls)
         if key in seen:
             continue
@@ -1534,7 +1560,10 @@ def judge(ck, hbin, cfg, res, tier):
                      found_input=True, engine="constrained"):
             ck.log("property failure [%s/%s %s/%s]: %s" % (cfg["space"], cfg["con"], site, cls, what))
             bad += 1
-    if res["diffs"]:
+            counts["spec"] = counts.get("spec", 0) + 1
+    if res["diffs"] and not do_corr:
+        ck.disagreements += len(res["diffs"])
+    if res["diffs"] and do_corr:
         ck.disagreements += len(res["diffs"])
         d0 = res["diffs"][0]
         (li, tag, exp, got, inmain) = d0[:5]
@@ -1552,6 +1581,7 @@ def judge(ck, hbin, cfg, res, tier):
                              % (tag, sc[1 + li].split()[0], len(res["diffs"])))
         ck.log("correspondence disagreement [%s/%s] replay kind %s at op %d" % (cfg["space"], cfg["con"], tag, li))
         bad += 1
+        counts["corr"] = counts.get("corr", 0) + 1
     return bad
 
 
@@ -1603,7 +1633,7 @@ def run(ck):
         f15_stats(ck, cfg, res)
         ck.count("scripts:corpus")
         bad += judge(ck, hbin, cfg, res, tier)
-    ncfg = 54 if tier == "quick" else 270
+    ncfg = 48 if tier == "quick" else 240
     cfgs = gen_configs(ck.rng.fork("configs"), ncfg, tier)
     # planners on a subset (delta >= 0.05: a 0.01 atlas needs far more evaluations than the budget allows)
     pk = 0
@@ -1616,7 +1646,7 @@ def run(ck):
     # they are tens of MB each, keeping all of them costs tens of GB in the thorough tier
     import threading
     lock = threading.Lock()
-    state = {"bad": bad, "first": None}
+    state = {"bad": bad, "first": None, "counts": {}}
 
     def work(c):
         res = run_config(ck, hbin, c, tier)
@@ -1624,8 +1654,8 @@ def run(ck):
             account(ck, c, res)
             f15_stats(ck, c, res)
             ck.count("scripts:generated")
-            if state["bad"] < 4:
-                state["bad"] += judge(ck, hbin, c, res, tier)
+            state["bad"] += judge(ck, hbin, c, res, tier, do_spec=state["counts"].get("spec", 0) < 4,
+                                  do_corr=state["counts"].get("corr", 0) < 3, counts=state["counts"])
             if c is cfgs[0]:
                 state["first"] = [l[:90] for l in res["script"][1:6]]
         res.clear()
